@@ -6,6 +6,7 @@ import (
 	"crypto"
 	"crypto/x509"
 	"fmt"
+	"sort"
 	"strings"
 	"sync"
 
@@ -381,6 +382,61 @@ func signCells(r *core.Run) {
 				}
 				r.Count("local-sign-ok", 1)
 				r.Nontrivial(desc)
+			}
+		}
+	}
+	// a local signer whose certificate slice - the caller's own - is refilled
+	// with another key's chain after construction (through the slice passed in,
+	// or through the one CertificateChain() hands out): whatever Sign does then,
+	// it must not emit an envelope whose declared algorithm is not the one the
+	// signing key and the carried leaf share
+	kinds := make([]string, 0, len(table))
+	for k := range table {
+		kinds = append(kinds, k)
+	}
+	sort.Strings(kinds)
+	for _, mt := range []string{sims.JWS, sims.COSE} {
+		for _, k1 := range kinds {
+			for _, k2 := range kinds {
+				if k1 == k2 {
+					continue
+				}
+				for _, via := range []string{"slice-passed-in", "slice-handed-out"} {
+					r.Eval(1)
+					desc := fmt.Sprintf("Sign(%s) with NewLocalSigner(chain %s, key %s) after the %s was refilled with the chain of %s", mtName(mt), k1, k1, via, k2)
+					certs := append([]*x509.Certificate{}, chainFor(k1).Certs...)
+					signer, err := signature.NewLocalSigner(certs, chainFor(k1).Keys[0].Priv)
+					if err != nil {
+						r.Inconclusive(desc + ": " + err.Error())
+						continue
+					}
+					target := certs
+					if via == "slice-handed-out" {
+						target, _ = signer.CertificateChain()
+					}
+					copy(target, chainFor(k2).Certs)
+					env, _ := signature.NewEnvelope(mt)
+					var raw []byte
+					var serr error
+					if p := core.Guard(func() { raw, serr = env.Sign(sims.BaseRequest(mt, signer, signature.SigningSchemeX509)) }); p != nil {
+						r.Count("panicked", 1)
+						continue
+					}
+					r.Nontrivial(desc)
+					if serr != nil {
+						r.Count("refilled-signer-refused", 1)
+						continue
+					}
+					e, perr := signature.ParseEnvelope(mt, raw)
+					if perr == nil {
+						_, perr = e.Verify()
+					}
+					if perr != nil {
+						r.Violation("refilled-signer:emitted-envelope-does-not-verify:"+k1+":"+k2, desc+": Sign returned an envelope that does not verify: "+perr.Error(), desc)
+						continue
+					}
+					r.Count("refilled-signer-signed-consistently", 1)
+				}
 			}
 		}
 	}
